@@ -173,8 +173,22 @@ func c19EarlierKinds(p *c19Probe) []struct {
 
 // c19HistoryStart takes the baseline and runs the length-two sequences; the caller invokes
 // compare again after the other phases.
+// c19Baseline, if set, is the probe whose baseline was taken by C19Prepare before anything else ran in
+// this process (the Engine A part of the check runs real handlers, which call into types/math).
+var c19Baseline *c19Probe
+
+// C19Prepare takes the history-independence baseline. Call it first in the process.
+func C19Prepare() {
+	if c19Baseline == nil {
+		c19Baseline = newC19Probe()
+	}
+}
+
 func c19HistoryStart(col *c19Collector) (*c19Probe, *C19HistoryStats) {
-	p := newC19Probe()
+	p := c19Baseline
+	if p == nil {
+		p = newC19Probe()
+	}
 	st := &C19HistoryStats{ProbeEvaluations: len(p.base)}
 	// how many probes exercise rounding at all (vacuity): Mul/Quo succeed where the exact versions refuse
 	n := len(p.decs)
@@ -187,6 +201,10 @@ func c19HistoryStart(col *c19Collector) (*c19Probe, *C19HistoryStats) {
 				st.ProbesNeedRounding++
 			}
 		}
+	}
+	if c19Baseline != nil {
+		// whatever ran between C19Prepare and now (the exploration of the real handlers) is the first "earlier" history
+		p.compare("the exploration of the marketplace handlers (Engine A part)", col, st)
 	}
 	ks := c19EarlierKinds(p)
 	st.EarlierKinds = len(ks)
